@@ -215,8 +215,10 @@ def wrapper_obligations(chk, prefix, want):
                 rs = stt.get("_replay_status")
                 n_ops = s.get(inp["ops_list"])["len"]
                 rcls = P.cls("state.ReplayStatus")
-                chk.prove(f"{prefix}.exec.initial_status", s.pc, (rs.t == enum_sort(rcls)[1]["REPLAY"]) == (n_ops > 1) if rs is not None else F,
-                          desc="first-page rule as coded: REPLAY iff the invocation payload holds more than the EXECUTION record (the all-pages rule is C17.exec.initial_status_all_pages)")
+                more_pages = ops.truth(s, ies["next_marker"])
+                chk.prove(f"{prefix}.exec.initial_status", s.pc, (rs.t == enum_sort(rcls)[1]["REPLAY"]) == z3.Or(n_ops > 1, more_pages) if rs is not None else F,
+                          desc="the invocation starts in REPLAY iff the history - however it is split between the invocation payload and later pages - holds more than the EXECUTION record (B3': a non-empty marker means more records follow)",
+                          sample="replay_status == REPLAY iff len(first page) > 1 or next_marker")
         if k == "raise":
             if "C18" in want or "C06" in want:
                 # ---------------- raises only for retry / malformed payload / non-Exception BaseException
